@@ -67,6 +67,40 @@ func dispatchPart(c *rig.Ctx) {
 	})
 	c.MarkExhaustive("each interrupt source x every IE low-bit value containing it (IF random, containing it)")
 
+	// IF holds the last value stored, also when the hardware raised a request since the
+	// previous store of the very same value
+	c.Part("if-stores", 32, func(i int64, r *rig.Rng) {
+		v := uint8(i)
+		for src := 0; src < 5; src++ {
+			m := rig.MustNew(rig.BlankROM(0, 0, 0), rig.Opts{})
+			m.Mem.Write(0xff40, 0x11)
+			m.Mem.Write(0xff0f, v)
+			switch src {
+			case 0:
+				m.IRQ.RequestVblank()
+			case 1:
+				m.IRQ.RequestStat()
+			case 2:
+				m.IRQ.RequestTimer()
+			case 3:
+				m.IRQ.RequestSerial()
+			case 4:
+				m.IRQ.RequestJoypad()
+			}
+			if got := m.Mem.Read(0xff0f); got != 0xe0|v|1<<uint(src) {
+				c.Violate("readback-if-after-request", fmt.Sprintf("IF written %02X, source %d requested: IF reads %02X", v, src, got), nil)
+				return
+			}
+			m.Mem.Write(0xff0f, v)
+			if got := m.Mem.Read(0xff0f); got != 0xe0|v {
+				c.Violate("readback-if-restored", fmt.Sprintf("IF written %02X, source %d requested by the hardware, IF written %02X again: IF reads %02X", v, src, v, got), nil)
+				return
+			}
+			c.Count("dispatch_readbacks", 1)
+		}
+		c.Exact(1)
+	})
+
 	// OAM is plain memory with the LCD off as soon as a transfer is over: a store in each of
 	// the cycles around the end of a transfer either is blocked together with the reads (the
 	// byte then reads FF or its copied value) or sticks
